@@ -501,14 +501,18 @@ func (h *harness) oracle3(pr params, s sdf.SDF3, kids []interface{}, desc, coq, 
 			case 1:
 				z = height / 2
 			}
-			t := z/height + 0.5 // 0 at the bottom face, 1 at the top
+			t, turn := 0.5, 0.0 // height 0 (accepted by Extrude3D: a flat solid) has a single section
+			if height != 0 {
+				t = z/height + 0.5 // 0 at the bottom face, 1 at the top
+				turn = -z * tw / height
+			}
 			lam := v2.Vec{X: 1 + t*(1/sc.X-1), Y: 1 + t*(1/sc.Y-1)}
 			if math.Abs(lam.X) < 0.05 || math.Abs(lam.Y) < 0.05 {
 				continue
 			}
 			// the point of the solid at height z that shows the profile point q:
 			// the section is the profile scaled by 1/lam and turned by -z*twist/height
-			w := rot2(-z*tw/height, q)
+			w := rot2(turn, q)
 			p := v3.Vec{X: w.X / lam.X, Y: w.Y / lam.Y, Z: z}
 			got, want := s.Evaluate(p), math.Max(prof.Evaluate(q), math.Abs(z)-height/2)
 			if pr.kind == "fExtrude" {
